@@ -357,3 +357,31 @@ def try_finally(a: int) -> int:
         raise OverflowError("x") from e
     finally:
         a = 0
+
+
+class Opaque:
+    __value: int
+
+
+def hash_without_dunder(b: Opaque) -> int:
+    return hash(b)
+
+
+def none_local_as_value(a: int) -> int:
+    w = None
+    return a + w
+
+
+def none_in_loop(a: int) -> int:
+    w = 0
+    for i in range(a):
+        w = None
+    return 1
+
+
+def _two(x: int, y: int) -> int:
+    return x + y
+
+
+def none_for_plain_parameter(a: int) -> int:
+    return _two(None, a)
